@@ -30,8 +30,31 @@ ASSUMPTIONS = [
 ]
 
 
+HIST_ALPHA = {'xcopy': 16, 'peer': 12, 'xcopy_vars': 3, 'build': 8,
+              'apply': 3, 'drop': 5, 'gc': 3, 'swap': 4, 'sift': 1,
+              'reorder_to': 3, 'declare': 3, 'undeclare': 1, 'churn': 1}
+
+
+def _hist_nontrivial(w):
+    return 'xcopy.other_order' in w.nontrivial
+
+
 def plan(tier, seed):
     specs = []
+    # two managers with independent histories (reordered, extended,
+    # collected) between repeated copies in both directions
+    cfgs = [dict(kind='bdd', nmax=4, init_vars=3),
+            dict(kind='bdd', nmax=5, init_vars=4),
+            dict(kind='autoref', nmax=4, init_vars=3),
+            dict(kind='autoref', nmax=5, init_vars=3),
+            dict(kind='autoref', nmax=5, init_vars=4, reordering=True,
+                 reorder_starts=8),
+            dict(kind='bdd', nmax=10, init_vars=8, semantic=False)]
+    for s_ in range(12 if tier == 'thorough' else 4):
+        specs.append(dict(kind='history', seed=seed * 1000 + 900 + s_,
+                          cfgs=cfgs,
+                          examples=1200 if tier == 'thorough' else 250,
+                          min_len=8, max_len=40))
     # targets with dynamic reordering enabled: every position of the
     # trigger during the copy (machinery of C09)
     for s_ in range(16 if tier == 'thorough' else 2):
@@ -283,6 +306,10 @@ def run_random(spec, out):
 
 
 def run(spec, out):
+    if spec['kind'] == 'history':
+        from .. import histprop as H_
+        return H_.run_random(spec, out, HIST_ALPHA, _hist_nontrivial,
+                             shutdown=True)
     if spec['kind'] == 'schedule':
         from . import c09
         return c09.run_schedule(spec, out)
@@ -290,6 +317,9 @@ def run(spec, out):
 
 
 def replay_into(case, out):
+    if case['kind'] == 'history':
+        from .. import histprop as H_
+        return H_.replay_into(case, out)
     if case['kind'] == 'schedule':
         from . import c09
         return c09.replay_into(case, out)
